@@ -3,8 +3,9 @@
 (* (pkg/media/ivfwriter/ivfwriter.go: WriteRTP, writeVP8, writeVP9,         *)
 (* writeAV1, writeFrame, writeHeader, Close), fed one RTP packet per step   *)
 (* with abstractly packetised frames, and IVFReader as the inverse parser   *)
-(* of the produced file (parseFileHeader / ParseNextFrame: a frame header   *)
-(* delimits the following payload by its length field).                     *)
+(* of the produced file (parseFileHeader / ParseNextFrame / readFramePayload:  *)
+(* a frame header delimits the following payload by its length field; the  *)
+(* payload is read as bytes, in one of two ways depending on its size).     *)
 (*                                                                          *)
 (* Payload bytes are abstracted to tokens [f, o, ty, n]: piece o of frame f *)
 (* with n bytes; the "bytes" of a frame are its token sequence. The file is *)
@@ -42,7 +43,11 @@ CONSTANTS
   Pads,          \* BOOLEAN: an empty-payload (padding) packet may follow the first packet of a frame
   Sample,        \* BOOLEAN: draw one random alternative per step instead of all (simulation)
   Emit,          \* BOOLEAN: print the vector at the end of a behaviour
-  InitSample     \* 0 = all configurations, else that many random ones
+  InitSample,    \* 0 = all configurations, else that many random ones
+  RdLimit,       \* ivfreader.maxPreallocatedFrameSize: frames up to this size are read into a preallocated buffer,
+                 \* larger ones through a limited reader (1 MiB in the code; scaled down in the exhaustive runs)
+  BigDeltas,     \* frame sizes RdLimit + j, j \in BigDeltas: the class "around / beyond the reader's chunk limit"
+  MaxBig         \* at most this many frames of that class per stream
 
 VARIABLES cfg,    \* configuration of the writer and of the stream
           phase,  \* "open" | "closed"
@@ -185,9 +190,12 @@ WriteRTP ==
   /\ UNCHANGED <<cfg, phase, nfr, inp>>
 
 Cap == cfg.mtu - PayloadHdr(cfg.codec, FALSE, FALSE)
+BigSizes == {RdLimit + j : j \in BigDeltas}
+NBig == Cardinality({k \in 1..Len(inp) : inp[k].size \in BigSizes})
 SizeChoices ==
   Sizes \cup (IF RelSizes THEN {s \in {k * Cap + j : k \in 1..2, j \in {-1, 0, 1}} : s >= 1} ELSE {})
         \cup (IF MaxRandPk > 0 THEN RandomSubset(1, 1..(MaxRandPk * Cap)) ELSE {})
+        \cup (IF NBig < MaxBig THEN BigSizes ELSE {})
 DeltaChoices == Deltas \cup (IF MaxRandDelta > 0 THEN RandomSubset(1, 1..MaxRandDelta) ELSE {})
 
 \* the first frame: a key frame (premise of C32); when NonKeyStart, exhaustively also an inter frame, and in
@@ -231,18 +239,32 @@ Spec == Init /\ [][Next]_vars
 RdHeader(fl) == LET x == fl[1].f IN
   [sig |-> x[1], version |-> x[2], fourcc |-> x[4], w |-> x[5], h |-> x[6], den |-> x[7], num |-> x[8], nframes |-> x[9]]
 
-\* read payload items from position i until `need` bytes were taken
-RECURSIVE Take(_, _, _)
-Take(fl, i, need) ==
-  IF need = 0 THEN [toks |-> <<>>, next |-> i, ok |-> TRUE]
-  ELSE IF i > Len(fl) \/ fl[i].tag # "d" \/ fl[i].tok.n > need THEN [toks |-> <<>>, next |-> i, ok |-> FALSE]
-  ELSE LET r == Take(fl, i + 1, need - fl[i].tok.n) IN [toks |-> <<fl[i].tok>> \o r.toks, next |-> r.next, ok |-> r.ok]
+\* The reader sees bytes, not items: a frame header is 12 bytes, a payload item the bytes of its token. Reading
+\* up to `limit` bytes from item i consumes whole items whatever their kind (a header swallowed into a payload shows
+\* up as a "hdr" token); got = bytes obtained (less than limit at the end of the file); a read that would end inside
+\* an item is reported as misaligned (it cannot happen when the length fields are right).
+ItemBytes(it) == IF it.tag = "fh" THEN 12 ELSE it.tok.n
+AsTok(it) == IF it.tag = "d" THEN it.tok ELSE [f |-> 0, o |-> 0, ty |-> "hdr", n |-> 12]
+RECURSIVE ReadUpTo(_, _, _)
+ReadUpTo(fl, i, limit) ==
+  IF limit = 0 \/ i > Len(fl) THEN [toks |-> <<>>, next |-> i, got |-> 0, aligned |-> TRUE]
+  ELSE IF ItemBytes(fl[i]) > limit THEN [toks |-> <<>>, next |-> i, got |-> 0, aligned |-> FALSE]
+  ELSE LET r == ReadUpTo(fl, i + 1, limit - ItemBytes(fl[i])) IN
+       [toks |-> <<AsTok(fl[i])>> \o r.toks, next |-> r.next, got |-> ItemBytes(fl[i]) + r.got, aligned |-> r.aligned]
+
+\* readFramePayload(size): up to RdLimit bytes - io.ReadFull into a buffer of that size; beyond -
+\* io.ReadAll(io.LimitReader(stream, size)), an error when fewer than size bytes arrive
+ReadFramePayload(fl, i, size) ==
+  LET r == ReadUpTo(fl, i, size) IN
+  IF size <= RdLimit
+  THEN [toks |-> r.toks, next |-> r.next, ok |-> r.aligned /\ r.got = size]      \* ErrUnexpectedEOF / EOF otherwise
+  ELSE [toks |-> r.toks, next |-> r.next, ok |-> r.aligned /\ ~(r.got < size)]   \* len(payload) < size: EOF / incomplete
 
 RECURSIVE RdFrames(_, _)
 RdFrames(fl, i) ==       \* ParseNextFrame until EOF
   IF i > Len(fl) THEN [frames |-> <<>>, ok |-> TRUE]
   ELSE IF fl[i].tag # "fh" THEN [frames |-> <<>>, ok |-> FALSE]
-  ELSE LET t == Take(fl, i + 1, fl[i].n) IN
+  ELSE LET t == ReadFramePayload(fl, i + 1, fl[i].n) IN
        IF ~t.ok THEN [frames |-> <<>>, ok |-> FALSE]
        ELSE LET r == RdFrames(fl, t.next) IN
             [frames |-> <<[pts |-> fl[i].pts, toks |-> t.toks]>> \o r.frames, ok |-> r.ok]
